@@ -244,14 +244,23 @@ fn run_hist<U: Uf>(c: &Hist, obs: &mut Obs) -> Result<(), String> {
                         l.push(e);
                     }
                 }
-                let got = insts[*i].classes(&l.iter().map(|&e| U::elem(e)).collect::<Vec<_>>());
+                // the query keeps its repetitions; a repeated element may be listed once or once per
+                // occurrence, but always in one class only: repetitions are removed from each listed
+                // class before the comparison, the number and order of classes are compared as they are
+                let got = insts[*i].classes(&list.iter().map(|&e| U::elem(e)).collect::<Vec<_>>());
                 let mut got_idx: Vec<Vec<usize>> = vec![];
                 for cl in &got {
                     let mut v = vec![];
                     for e in cl {
-                        v.push(*back.get(e).ok_or_else(|| format!("step {}: classes() lists foreign element {:?}", step, e))?);
+                        let x = *back.get(e).ok_or_else(|| format!("step {}: classes() lists foreign element {:?}", step, e))?;
+                        if !v.contains(&x) {
+                            v.push(x);
+                        }
                     }
                     got_idx.push(v);
+                }
+                if list.len() != l.len() {
+                    obs.class("classes() query with a repeated element");
                 }
                 let mut expect: Vec<Vec<usize>> = vec![];
                 for &e in &l {
@@ -263,8 +272,8 @@ fn run_hist<U: Uf>(c: &Hist, obs: &mut Obs) -> Result<(), String> {
                 }
                 ensure!(
                     got_idx == expect,
-                    "step {}: classes({:?}) on instance {} = {:?}, expected {:?} (classes and members in first-occurrence order)",
-                    step, l, i, got_idx, expect
+                    "step {}: classes({:?}) on instance {} = {:?} (repetitions inside a class removed), expected {:?} (classes and members in first-occurrence order, every element in one class only)",
+                    step, list, i, got_idx, expect
                 );
                 if expect.iter().any(|cl| cl.len() >= 2) && expect.len() >= 2 {
                     obs.class("classes() with a merged and a separate class");
@@ -343,7 +352,7 @@ fn alphabet() -> Vec<UOp> {
         for a in 0..4 {
             ops.push(UOp::Find(i, a));
         }
-        ops.push(UOp::Classes(i, vec![3, 1, 0, 2]));
+        ops.push(UOp::Classes(i, vec![3, 1, 0, 3, 2, 1]));
     }
     ops.push(UOp::Clone(0, 1));
     ops.push(UOp::Clone(1, 0));
@@ -371,7 +380,7 @@ pub fn run(ctx: &mut Ctx) {
     let t = ctx.tier;
     ctx.rule = "all operation histories over a small alphabet (exhaustive) plus proptest-generated long histories, for Partition<u8>, Partition<String>, Partition<(i32,i32)> and IntPartition (sparse indices); oracle = naive relabelling model per instance, observed after every step (on a clone, so chains stay uncompressed, or directly) or only at the end; distinct = distinct 64-bit hashes of (type, observation mode, ops)".into();
     ctx.assume("a unite call whose arguments already share a class is conservatively treated as 'a union involving that class' (the representative may change)");
-    ctx.assume("classes() is queried with duplicate-free lists");
+    ctx.assume("classes() may be queried with repeated elements; whether a repeated element is listed once or once per occurrence inside its class is left open, but it must appear in one class only");
     crate::props::run_regressions(ctx, "C20");
 
     ctx.layer("exhaustive");
